@@ -50,3 +50,62 @@ Print Assumptions C09_symbolic_execution_sound.
 Print Assumptions C09_pack_layout.
 Print Assumptions C09_unpack_layout.
 Print Assumptions C09_unpack_pack.
+
+(* ======== the compact sketch codec (ThetaCodecDefs.v: the model that is extracted and compared with the C++) ======== *)
+From DS Require Import ThetaCodecDefs ThetaCodecProofs ThetaCodecProofs2.
+
+(* serial version 3: both readers restore exactly the sketch that was written, for every well-formed sketch,
+   whatever follows the image; the stream reader consumes exactly the image. *)
+Theorem C09_theta_v3_roundtrip : forall s, wf s -> forall rest,
+  dec_bytes (k_seed_hash s) (enc_v3 s ++ rest) = Some s /\
+  dec_stream (k_seed_hash s) (enc_v3 s ++ rest) = Some (s, length (enc_v3 s)).
+Proof. exact (fun s H rest => conj (v3_roundtrip_bytes s H rest) (v3_roundtrip_stream s H rest)). Qed.
+
+(* serial version 4 (delta coding + bit packing through the translated routines) *)
+Theorem C09_theta_v4_roundtrip : forall s, wf4 s -> suitable_for_compression s = true ->
+  exists img, enc_v4 s = Some img /\
+    length img = (v4_doff s + packed_len (N.to_nat (entry_bits s)) (length (k_entries s)))%nat /\
+    forall rest, dec_bytes (k_seed_hash s) (img ++ rest) = Some s /\
+                 dec_stream (k_seed_hash s) (img ++ rest) = Some (s, length img).
+Proof. exact v4_roundtrip. Qed.
+
+Theorem C09_theta_serialize_compressed_roundtrip : forall s, wf s -> (suitable_for_compression s = true -> wf4 s) ->
+  exists img, serialize_compressed s = Some img /\
+    forall rest, dec_bytes (k_seed_hash s) (img ++ rest) = Some s /\
+                 dec_stream (k_seed_hash s) (img ++ rest) = Some (s, length img).
+Proof. exact serialize_compressed_roundtrip. Qed.
+
+(* advertised sizes *)
+Theorem C09_theta_v3_size : forall s,
+  length (enc_v3 s) = (8 * N.to_nat (pre_longs_v3 s) + 8 * length (k_entries s))%nat.
+Proof. exact enc_v3_length. Qed.
+
+Theorem C09_theta_v4_size : forall s img, wf4 s -> suitable_for_compression s = true -> enc_v4 s = Some img ->
+  N.of_nat (length img) =
+    (if est_mode s then 16 else 8) + num_entries_bytes s + whole_bytes (entry_bits s * nent s).
+Proof. exact v4_image_size. Qed.
+
+(* non-vacuity: an estimation-mode sketch with three entries *)
+Definition C09_ex : csk := mk false true 37836 4611686018427387904 [1000; 70000; 4000000000000].
+Example C09_ex_wf4 : wf4 C09_ex /\ suitable_for_compression C09_ex = true.
+Proof.
+  unfold wf4, wf. cbn [C09_ex mk k_seed_hash k_theta k_entries k_empty k_ordered incr].
+  repeat split; try reflexivity; try discriminate; repeat (apply Forall_cons; [reflexivity|]); apply Forall_nil.
+Qed.
+Example C09_ex_images :
+  enc_v3 C09_ex = [3; 3; 3; 0; 0; 26; 204; 147; 3; 0; 0; 0; 0; 0; 0; 0; 0; 0; 0; 0; 0; 0; 0; 64;
+                   232; 3; 0; 0; 0; 0; 0; 0; 112; 17; 1; 0; 0; 0; 0; 0; 0; 64; 148; 82; 163; 3; 0; 0] /\
+  dec_bytes 37836 (enc_v3 C09_ex ++ [7; 7]) = Some C09_ex /\
+  dec_stream 37836 (enc_v3 C09_ex ++ [7; 7]) = Some (C09_ex, 48%nat) /\
+  match enc_v4 C09_ex with
+  | Some img => length img = 33%nat /\ nth 3 img 0 = 42 /\
+     dec_bytes 37836 (img ++ [7]) = Some C09_ex /\ dec_stream 37836 (img ++ [7]) = Some (C09_ex, 33%nat)
+  | None => False
+  end.
+Proof. vm_compute. repeat split. Qed.
+
+Print Assumptions C09_theta_v3_roundtrip.
+Print Assumptions C09_theta_v4_roundtrip.
+Print Assumptions C09_theta_serialize_compressed_roundtrip.
+Print Assumptions C09_theta_v3_size.
+Print Assumptions C09_theta_v4_size.
